@@ -391,7 +391,7 @@ def gen_request_case(g, tier, focus=None, c17=None):
         peer_port = g.pick([w.port_ua, 5060, g.rint(1024, 65000)])
         method = g.pick(["INVITE", "OPTIONS", "MESSAGE", "REGISTER", "SUBSCRIBE", "X-CUSTOM", "INFO"])
         # ---- Request-URI ----
-        ru_kind = g.pick(["svc-lit", "svc-lit", "userhost", "urn", "tel", "listener", "foreign", "regex"])
+        ru_kind = g.pick(["svc-lit", "svc-lit", "userhost", "userhost", "urn", "tel", "tel", "listener", "foreign", "regex"])
         user, host, port, whole, kind = "", "", 5060, "", "sip"
         if ru_kind == "svc-lit":
             user, host = g.pick(["", "bob", "carol"]), "svc.test"
@@ -432,12 +432,27 @@ def gen_request_case(g, tier, focus=None, c17=None):
                 ru += g.pick([";x", ";x=1;y", ";lr", ";maddr=10.1.1.1"]) if "?" not in ru else ""
             g.count("ruri_deco_" + deco)
         lit, rx = w.service_match(kind, user, host, port, whole, lst)
+        # a configured service name that holds expression operators and is meant literally: ask for exactly that name, with
+        # nothing else (no Route, no static route) deciding the request
+        op_names = [n for n in w.name_list() if n.startswith("tel:") and re.search(r"[+*(]", n)]
+        force_service = False
+        if op_names and g.chance(0.4):
+            kind, whole = "abs", g.pick(op_names)
+            ru = whole
+            user, host, port = "", "", 5060
+            lit, rx = w.service_match(kind, user, host, port, whole, lst)
+            force_service = True
+            g.count("ruri_is_operator_literal_name")
         # ---- To host -> static route ----
-        to_host = g.pick(["dest.test", "dest.test", "a.wild.test", "b.c.wild.test", "nowhere.test", "svc.test", "wild.test",
+        to_host = g.pick(["dest.test", "dest.test", "a.wild.test", "b.c.wild.test", "nowhere.test", "nowhere.test", "svc.test", "svc.test", "wild.test",
                           "voipdest.test", "10.20.7.7", "110.20.7.7", "sip7.pbx.test", "sip.pbx.test", "xsip7.pbx.test", "a.wild.org", "dest.test.org"])
+        if force_service:
+            to_host = "nowhere.test"
         sr = w.static_route(to_host)
         # ---- Route set ----
-        route_mode = g.pick(["none", "none", "own", "own+next", "next", "own+next+more", "nearmiss+next", "alias+next", "own+own+next"])
+        route_mode = g.pick(["none", "none", "none", "none", "own", "own", "own+next", "next", "own+next+more", "nearmiss+next", "alias+next", "own+own+next"])
+        if force_service:
+            route_mode = g.pick(["none", "own"])
         own_variants = [sip_uri_text(g, "", lst.addr, lst.port, ";lr"), sip_uri_text(g, "", "proxy.test", lst.port, ";lr")]
         if lst.port == 5060:
             own_variants += [sip_uri_text(g, "", lst.addr, None, ";lr"), sip_uri_text(g, "", "proxy.test", None, ";lr")]
@@ -872,7 +887,7 @@ def gen_tcp_case(g, tier):
             g.count("tcp_dash_method")
         elif dash_twin and g.chance(0.7):
             cn, (forced_method, br) = dash_twin.pop()
-        if forced_method is None and pending and g.chance(0.35):
+        if forced_method is None and pending and g.chance(0.5):
             # distinct branch that extends (or is a prefix of) the branch of a transaction still open
             ob = g.pick(pending)["via"].get("branch")
             br = g.pick([ob + g.pick(["1", "0", "-1", "x"]), ob[:-1] if len(ob) > 9 else ob + "7"])
